@@ -100,6 +100,24 @@ CloseNV(g, T, L, S, fuel) ==
 NeededNV(g, T, L, targets) ==
   CloseNV(g, T, L, {Prod(g, t) : t \in targets} \ {0}, Len(g.stmts) + 1)
 
+\* -- read-only tools: what they print ------------------------------------
+\* `-t inputs T...`: every file named as an input (explicit, implicit or order-only; validations are not inputs) by the
+\* producer of a target or of such an input, transitively - the manifest alone counts (no log, no dyndep file is read) -
+\* except the names produced by phony statements, which are looked through.  Printed in byte order.
+DeclIn(s) == ToS(s.ex) \cup ToS(s.im) \cup ToS(s.oo)
+RECURSIVE InReach(_, _, _)
+InReach(g, S, fuel) ==
+  LET nxt == S \cup UNION {DeclIn(St(g, Prod(g, f))) : f \in {x \in S : Prod(g, x) # 0}}
+  IN IF nxt = S \/ fuel = 0 THEN S ELSE InReach(g, nxt, fuel - 1)
+ToolInputs(g, tg) ==
+  LET R == InReach(g, tg, 2 * Len(g.stmts) + 2) IN
+  {f \in R : /\ \E x \in R : Prod(g, x) # 0 /\ f \in DeclIn(St(g, Prod(g, x)))
+             /\ (Prod(g, f) = 0 \/ ~St(g, Prod(g, f)).phony)}
+\* `-t targets all`: one line "output: rule" for every output (implicit ones included) of every statement
+RuleName(s) == IF s.phony THEN "phony" ELSE "r" \o ToString(s.id)
+ToolTargetsAll(g) == UNION {{o \o ": " \o RuleName(St(g, i)) : o \in ToS(St(g, i).outs) \cup ToS(St(g, i).iouts)} : i \in Ids(g)}
+NoDyndep(g) == \A i \in Ids(g) : St(g, i).dd = "" /\ St(g, i).ddo = <<>> /\ St(g, i).ddi = <<>>
+
 \* Dependency relation between statements (no validations) and a
 \* topological order of all statements; cyclic graphs get no order.
 DepOn(g, T, L, i) == {Prod(g, f) : f \in All(g, T, L, i)} \ {0}
